@@ -5,6 +5,7 @@ from math import prod
 from typing import ClassVar
 
 import equinox as eqx
+import jax
 import jax.numpy as jnp
 import numpy as np
 from jaxtyping import Array, Int
@@ -147,7 +148,11 @@ class Partial(AbstractBijection):
             self.idxs = jnp.nonzero(self.idxs)
 
     def __check_init__(self):
-        expected_shape = jnp.zeros(self.shape)[self.idxs].shape
+        # Index with numpy: jax clamps out of range indices instead of raising.
+        idxs = jax.tree_util.tree_map(
+            lambda i: np.asarray(i) if isinstance(i, Array) else i, self.idxs
+        )
+        expected_shape = np.zeros(self.shape)[idxs].shape
         if expected_shape != self.bijection.shape:
             raise ValueError(
                 f"The bijection shape is incompatible with the subset of the input "
